@@ -59,6 +59,9 @@ def analyze(scen, r, props):
     req = {}              # job name -> {tokvar: n}
     for x, j in jobs.items():
         req[f"j{x}"] = {t: n for t, n in j["tok"]}
+    adoptable = set()     # (job id, scheduler pid): a live process with a complete pid file existed when it was submitted
+    live_job = {}         # vpid -> job id
+    published = set()     # job ids whose pid file has been written completely
     id2name = {e[5]: e[1] for e in ev if e[0] == "state" and e[5]}
     submitted_at = {}     # (jobid, scheduler pid) -> event index of the latest submission
     done_at = {}          # jobid -> event index of the first successful exit
@@ -67,8 +70,16 @@ def analyze(scen, r, props):
         if k == "launch":
             _, name, jobid, owner, vpid = e
             id2name[jobid] = name
+            if "C11" in props and jobid in published and any(live_job.get(v) == jobid for v in live):
+                V("C11", "relaunched-while-running", f"{name}: a new process was launched while process {[v for v in live if live_job.get(v) == jobid]} of the same job "
+                  f"(pid file published) is still running - it should have been adopted")
+            if "C11" in props and (jobid, owner) in adoptable and not any(c != 0 for c in exits.get(jobid, [])):
+                # (a process that has failed in the meantime is legitimately launched again)
+                V("C11", "relaunched-instead-of-adopted", f"{name}: its process was running (pid file complete) when scheduler {owner} submitted it, "
+                  f"yet that scheduler launched it again (event {i})")
             launches.setdefault(jobid, []).append(i)
             live[vpid] = name
+            live_job[vpid] = jobid
             sub = submitted_at.get((jobid, owner))
             if jobid in done_at and sub is not None and done_at[jobid] < sub:
                 V("C05", "launched-despite-success-marker", f"{name} was submitted (event {sub}) after it had succeeded (event {done_at[jobid]}) and was launched again")
@@ -106,6 +117,8 @@ def analyze(scen, r, props):
         elif k == "exit":
             _, name, jobid, vpid, code = e
             live.pop(vpid, None)
+            if code == -9 and running.get(jobid) == vpid:
+                running.pop(jobid, None)
             exits.setdefault(jobid, []).append(code)
             if code == 0:
                 succeeded.add(name)
@@ -116,6 +129,9 @@ def analyze(scen, r, props):
             _, name, idx, old, new, _jid, _pid = e
             if old == "UNSCHEDULED" and _jid:
                 submitted_at[(_jid, _pid)] = i
+                if _jid in published and any(live_job.get(v) == _jid for v in live):
+                    # a process of this job is running and its pid file is complete: it must be adopted
+                    adoptable.add((_jid, _pid))
             if idx in final_of and new != final_of[idx]:
                 V("C06", f"final-state-changed:{final_of[idx]}->{new}", f"{name} (job object {idx}) was {final_of[idx]} and became {new} (event {i})")
                 final_of[idx] = new if new in FINAL else final_of[idx]
@@ -136,6 +152,11 @@ def analyze(scen, r, props):
                 # a token file is written before the launch: map by job identifier recorded by the scripts
                 if held > cap:
                     V("C08", "capacity-exceeded:token-files", f"token {tname}: token files {sorted(s)} together hold {held} > {cap}")
+        elif k == "fs":
+            if e[2] == "rename" and e[3].endswith(".pid.tmp") and len(e) > 4:
+                published.add(e[4])
+            elif e[2] == "unlink" and e[3].endswith(".pid") and len(e) > 4:
+                published.discard(e[4])
         elif k == "xp_exit":
             pass
 
@@ -156,7 +177,17 @@ def analyze(scen, r, props):
             if st == "ERROR":
                 any_error = True
             codes = exits.get(jobid, [])
-            anc_failed = [a for a in ancestors(jobs, x) if f"j{a}" in failed and f"j{a}" not in succeeded] if x in jobs else []
+            # an ancestor counts as failed for this scheduler when *its* job object for it ended in error (several
+            # schedulers may see different fates of one job); jobs it did not submit: by the processes' exit codes
+            local = {jj["x"]: jj["state"] for jj in rec["jobs"].values() if not jj.get("dup")}
+            anc_failed = []
+            for a in (ancestors(jobs, x) if x in jobs else []):
+                if a in local:
+                    if local[a] == "ERROR":
+                        anc_failed.append(a)
+                elif f"j{a}" in failed and f"j{a}" not in succeeded:
+                    anc_failed.append(a)
+            killed_here = -9 in codes
             if st == "DONE" and not (0 in codes or x in pre_done or scen.get("markers_from_other_process")):
                 V("C06", "done-without-success", f"{name} ({var}) is DONE but no process of it exited with 0 (exit codes {codes})")
             if st == "ERROR" and x not in pre_done:
@@ -177,7 +208,7 @@ def analyze(scen, r, props):
                         V("C07", "dependent-not-cancelled", f"{name} depends on failed {anc_failed} but ended {st}")
                     elif j["failure"] != "DEPENDENCY":
                         V("C07", "dependent-failure-status", f"{name} depends on failed {anc_failed}, ended ERROR with failure status {j['failure']}")
-                elif len(jobs[x]["codes"]) == 1:
+                elif len(jobs[x]["codes"]) == 1 and not killed_here:
                     want = "DONE" if jobs[x]["codes"][0] == 0 else "ERROR"
                     if st != want:
                         V("C07", f"independent-job-not-{want.lower()}", f"{name} has no failed ancestor and code {jobs[x]['codes'][0]} but ended {st}")
